@@ -16,7 +16,7 @@ theorem marshal_probes_ok : Generated.Marshal_probes =
     ["Marshaler:.Marshal", "ProtoV1Marshaler:.XXX_Size,.XXX_Marshal", "proto.Message:proto.Marshal"] := by decide
 
 theorem unmarshal_probes_ok : Generated.Unmarshal_probes =
-    ["Unmarshaler:.Unmarshal", "ProtoV1Unmarshaler:.XXX_Unmarshal", "proto.Message:proto.Unmarshal"] := by decide
+    ["Unmarshaler:.Reset,.Unmarshal", "ProtoV1Unmarshaler:.Reset,.XXX_Unmarshal", "proto.Message:proto.Unmarshal"] := by decide
 
 theorem size_probes_ok : Generated.Size_probes =
     ["Sizer:.Size", "ProtoV1Sizer:.XXX_Size", "proto.Message:proto.Size"] := by decide
